@@ -18,7 +18,8 @@ pub(crate) fn read_hmac_block_stream(
     let mut pos = 0;
     let mut block_index: u64 = 0;
 
-    while pos < data.len() {
+    // the stream is closed by an empty block: data that ends before it was cut short
+    loop {
         // a block cut short cannot authenticate
         if data.len() - pos < 36 {
             return Err(BlockStreamError::BlockHashMismatch { block_index }.into());
